@@ -7,6 +7,8 @@ hook_commits = subprocess.run(["git","-C","/repo","log","--format=%h","--grep=^v
 claimed = {
  "C01": ("No-panic sweep (bounds, nil, type-assertion, division, explicit panic, extern preconditions) with Houdini-inferred loop invariants over every function of the lexer and the document-sync code, helper preconditions checked at every call site, type invariant of Lexer re-established at every exit; each obligation holds for all inputs of any length.",
          "Partial: covers the listed packages only (evidence lists the functions); termination only where variant obligations are listed; parser recursion depth, analysis passes, goroutines and jrpc2 are outside (DESIGN.md C01).", "5.C01"),
+ "C09": ("The three places where results gathered in map-iteration / goroutine-completion order are reduced to one answer are proved to use a strict total order: JudgeShouldInsertGlobalInfo is proved equal (loop invariant, all list lengths) to 'new beats every recorded definition of another file' for the lexicographic rank (function level, scope level, line, file), and the two sort.Interface Less methods (require candidates, workspace symbols) equal to lexicographic orders ending in a unique key; totality+antisymmetry and transitivity of each order are proved as lemmas. With a total order the surviving/first element is the unique minimum for every arrival order.",
+         "No scheduling semantics: worker pools, GOMAXPROCS and directory listing order are outside; sort.Sort is assumed to return a permutation sorted w.r.t. Less; the final step (unique minimum => order independence) is a paper argument; other map-order leaks are not enumerated. Strings are compared through an order embedding strord (sound for the finitely many strings of a query).", "5.C09"),
  "C10": ("Lock discipline proved for every method of LspServer: each access to the guarded server state (document cache, diagnostics maps, project, colorTime, changeConfFlag) happens with requestMutex held; helpers that touch the state are only called with it held (call-graph fixpoint, checked at each call site); no handler re-acquires the mutex (self-deadlock); the mutex state at every exit equals the state at entry. Whole-handler mutual exclusion gives atomicity, hence serialisability in lock-acquisition order.",
          "No interleaving semantics: goroutines spawned by handlers (worker pools, telemetry), the Go memory model and jrpc2's dispatcher are outside; entry points are read from the handler map in CreateServer; Initialize/Initialized/Shutdown/Exit are exempt (LSP ordering). Self-locked structures (LRUCache etc.) not yet covered.", "5.C10"),
  "C13": ("isUtf8/preNUm/ConvertStrToUtf8 against a structural UTF-8 spec (rec predicate V with generator-instantiated unfolding axiom): valid UTF-8 is accepted and returned unaltered; preNUm == leading-ones for all 256 bytes; unbounded in the input length.",
